@@ -5,7 +5,7 @@ struct CopyAlg { static constexpr bool needs_compat = true;
     template <class S, class D> std::string operator()(S const& s, D const& d) const { gil::copy_pixels(s, d); return ""; } };
 int main() {
     return hv::run([](std::string const& line) -> std::string {
-        auto a = hv::words(line);
+        auto a = op_words(line);
         if (!a.empty() && a[0] == "copy") return run_bin_line<L7>(CopyAlg(), a);
         return "bad-op";
     });
